@@ -79,6 +79,9 @@ func ScanNondeterminism(fn *ssa.Function) []NDHit {
 						}
 					}
 					out = append(out, NDHit{Kind: "cache", Fn: fn, Instr: in, Pos: in.Pos(), Detail: n + " on " + recv, Seq: -1, Recv: recv})
+				case sharedObjectCall(x) != nil:
+					g := sharedObjectCall(x)
+					out = append(out, NDHit{Kind: "shared-object", Fn: fn, Instr: in, Pos: in.Pos(), Detail: n + " on package variable " + g.Pkg.Pkg.Name() + "." + g.Name(), Seq: -1, Recv: "global:" + g.Pkg.Pkg.Name() + "." + g.Name()})
 				case n == "os.Getenv" || n == "os.LookupEnv" || n == "os.Hostname" || n == "os.Getpid":
 					add("env", in, n)
 				case n == "(reflect.Value).MapKeys" || n == "(reflect.Value).MapRange":
@@ -280,6 +283,54 @@ func globalRoot(v ssa.Value) *ssa.Global {
 				return nil
 			}
 			v = x.X
+		default:
+			return nil
+		}
+	}
+	return nil
+}
+
+// sharedObjectCall: a method call (pointer receiver or interface) on an object
+// held directly in a package-level variable. Such an object is shared by every
+// state and every goroutine of the process; if the method mutates it, what one
+// execution observes depends on what else ran. Loggers and locks are not
+// reported (they carry no value that reaches state).
+func sharedObjectCall(call *ssa.Call) *ssa.Global {
+	var recv ssa.Value
+	if call.Call.IsInvoke() {
+		recv = call.Call.Value
+	} else if f := call.Call.StaticCallee(); f != nil && f.Signature.Recv() != nil && len(call.Call.Args) > 0 {
+		if _, isPtr := f.Signature.Recv().Type().Underlying().(*types.Pointer); !isPtr {
+			return nil // value receiver: the object is copied
+		}
+		recv = call.Call.Args[0]
+	} else {
+		return nil
+	}
+	for i := 0; i < 3; i++ {
+		switch x := recv.(type) {
+		case *ssa.UnOp:
+			if x.Op != token.MUL {
+				return nil
+			}
+			if g, ok := x.X.(*ssa.Global); ok {
+				t := shortType(g.Type())
+				if strings.Contains(t, "log.Logger") || strings.Contains(t, "sync.Mutex") || strings.Contains(t, "sync.RWMutex") || strings.Contains(t, "sync.Once") {
+					return nil
+				}
+				return g
+			}
+			return nil
+		case *ssa.ChangeInterface:
+			recv = x.X
+		case *ssa.TypeAssert:
+			recv = x.X
+		case *ssa.Global:
+			t := shortType(x.Type())
+			if strings.Contains(t, "sync.") || strings.Contains(t, "log.Logger") {
+				return nil
+			}
+			return x // &global used as receiver
 		default:
 			return nil
 		}
